@@ -254,6 +254,16 @@ func genContent(r *h.Rng, big bool) []byte {
 		n = h.Pick(r, []int{1 << 20, 3<<20 + 17})
 	}
 	b := h.GenContent(r, n)
+	if !big && r.Chance(1, 8) { // long runs of zero bytes, at the end or throughout
+		switch r.Intn(3) {
+		case 0:
+			return append(h.GenContent(r, 5000), make([]byte, 64<<10)...)
+		case 1:
+			return make([]byte, 8192)
+		default:
+			return append(append(make([]byte, 4096), h.GenContent(r, 10)...), make([]byte, 12288)...)
+		}
+	}
 	if n > 0 && r.Chance(1, 3) { // arbitrary binary, NULs and newlines included
 		for i := 0; i < len(b) && i < 64; i++ {
 			b[i] = byte(r.U64())
@@ -273,14 +283,31 @@ func firstDiffLine(a, b string) string {
 	return "(nothing)"
 }
 
+var toolRuns int
+
 func runTool(bin string, dir string, args ...string) (bool, []byte, string, int64, int64) {
 	var so, se bytes.Buffer
 	cmd := exec.Command(bin, args...)
 	cmd.Dir = dir
 	cmd.Stdout, cmd.Stderr = &so, &se
+	// every other dump writes to a regular file (`siftool dump 1 img > file`), not to a pipe
+	toolRuns++
+	var outFile *os.File
+	if len(args) > 0 && args[0] == "dump" && toolRuns%2 == 0 {
+		if f, err := os.CreateTemp(dir, "dump-*.out"); err == nil {
+			outFile = f
+			cmd.Stdout = f
+		}
+	}
 	t0 := time.Now().Unix()
 	err := cmd.Run()
 	t1 := time.Now().Unix()
+	if outFile != nil {
+		outFile.Close()
+		b, _ := os.ReadFile(outFile.Name())
+		os.Remove(outFile.Name())
+		return err == nil, b, se.String(), t0, t1
+	}
 	return err == nil, so.Bytes(), se.String(), t0, t1
 }
 
@@ -403,9 +430,18 @@ func runSiftool(seed uint64, n, shards int, out, tmp string, maxops int, thoroug
 		var epilogue []tCmd
 		for k := 0; ; k++ {
 			if k == nsteps {
+				if directed != nil && len(usedIDs) > 0 {
+					// identifiers that are no 32-bit numbers, among them ones whose low 32 bits name an object
+					wrap := fmt.Sprint(uint64(1)<<32 + uint64(usedIDs[0]))
+					for _, kind := range []string{"info", "dump", "setprim", "del"} {
+						for _, bad := range []string{wrap, "4294967296", "0", "-1", "x", ""} {
+							epilogue = append(epilogue, tCmd{Kind: kind, ID: bad})
+						}
+					}
+				}
 				epilogue = append(epilogue, tCmd{Kind: "header"}, tCmd{Kind: "list"})
 				for _, id := range usedIDs {
-					if len(epilogue) < 10 {
+					if len(epilogue) < 40 {
 						epilogue = append(epilogue, tCmd{Kind: "info", ID: fmt.Sprint(id)})
 					}
 				}
